@@ -151,7 +151,7 @@ P = {
         spec="Filter, MC_Filter, Trace_Filter",
         text="LocalBioFilter.valid is transcribed clause by clause (alphabet, run, motif and reverse complement, windowed GC with "
              "rational bounds, short-string rule); TLC checks the last-window, window-conjunction, reverse-complement and "
-             "sub-string theorems for every string up to 4 (6) over {A,C,G,T,foreign} x 320 (240) configurations and exports both "
+             "sub-string theorems for every string up to 4 (5) over {A,C,G,T,foreign} x 320 (240) configurations and exports both "
              "verdicts, each replayed into a real filter object; seeded windows 5..12 with literature motifs and strings to 200 "
              "plus constructor acceptance are recorded from the code and judged by the trace spec.",
         tech="TLC model checking of Filter.tla + exhaustive replay into LocalBioFilter + trace validation",
@@ -176,7 +176,7 @@ P = {
     "C15": dict(
         spec="Bignum, MC_Bignum, Trace_Bignum, Ind_Mul, Ind_Div, Ind_Add",
         text="The four decimal-string helpers are transcribed as digit-serial machines shaped like the code; TLC steps them one "
-             "loop iteration per action for every canonical string up to 3 (5 thorough) digits x operand 0..9, checking the "
+             "loop iteration per action for every canonical string up to 3 (4 thorough) digits x operand 0..9, checking the "
              "carry/remainder refinement in every intermediate state and exactness at the end; every exported behaviour is "
              "replayed into calculus_*; seeded strings up to 1300 digits (carry and borrow chains) recorded from the code are "
              "re-computed by the machines; the multiply/divide/add steps are additionally inductive for unbounded values (Apalache).",
